@@ -1,6 +1,7 @@
 package durablestream
 
 import (
+	"context"
 	"time"
 
 	eventbus "github.com/jilio/ebu"
@@ -14,11 +15,17 @@ func harnessC10DurableReadChain() {
 	st, err := New(vdsServer("c10"), "s")
 	vAssert(err == nil, "store-opens")
 	n := vInt(0, N)
+	perCall := vBool()
 	var offs []eventbus.Offset
 	recs := make([]dsRec, 0, n)
 	for i := 0; i < n; i++ {
 		r := dsRec{typ: vStr("type"), data: []byte{'0' + byte(i)}, ts: time.Unix(int64(1000+i), 0).UTC()}
-		o, aerr := st.Append(bg, &eventbus.Event{Type: r.typ, Data: r.data, Timestamp: r.ts})
+		actx, acancel := context.WithCancel(bg)
+		o, aerr := st.Append(actx, &eventbus.Event{Type: r.typ, Data: r.data, Timestamp: r.ts})
+		if perCall {
+			acancel() // every call under its own context, ended once the call has returned
+		}
+		defer acancel()
 		vAssert(aerr == nil, "append-ok")
 		if i > 0 {
 			vAssert(offs[i-1] < o, "offset-order")
